@@ -16,6 +16,8 @@ from ..rules import pyrules
 
 
 EXTRAS = [
+    lambda rep, fb, tier: __import__("vf.rules.pyrules", fromlist=["x"]).rule_py_first_only_check(rep),
+    lambda rep, fb, tier: __import__("vf.rules.pyrules", fromlist=["x"]).rule_py_record_field_trim(rep),
     lambda rep, fb, tier: __import__("vf.rules.pyrules", fromlist=["x"]).rule_py_behaviorof_args(rep),
     lambda rep, fb, tier: __import__("vf.rules.pyrules", fromlist=["x"]).rule_py_regular_length(rep),
     lambda rep, fb, tier: pyrules.rule_py_borrowed(rep, ["_util.py", "_connect/_numpy.py", "highlevel.py", "behaviors/string.py", "operations/structure.py"], floor=10),
